@@ -136,7 +136,9 @@ Definition tstep (p : pc) (e : event) : option pc :=
       if ev_is e DV_CASW (mo_code group_wait_loop_order) OFF_STATE && (esz e =? 8) && (eb e =? new)
       then Some (if eok e =? 1 then PSlow tmo (f_dg_state_gen new) else wt_entry tmo (ea e)) else None
   | PSlow tmo gen =>
-      if ev_kind e DV_FUTEX_WAIT && (eoff e =? OFF_GEN) && (ea e =? gen) then Some (PSleep tmo gen)
+      (* eb = 1 iff a timeout is passed to the kernel (every timeout but DISPATCH_TIME_FOREVER) *)
+      if ev_kind e DV_FUTEX_WAIT && (eoff e =? OFF_GEN) && (ea e =? gen) && (eb e =? (if tmo =? FOREVER then 0 else 1))
+      then Some (PSleep tmo gen)
       else (* _dispatch_timeout(timeout) == 0: ETIMEDOUT without a system call, then the reload *)
         if ev_is e DV_LOAD MO_ACQUIRE OFF_GEN && (esz e =? 4) && negb (tmo =? FOREVER)
         then Some (if ea e =? gen then PRetV 1 else PRetV 0) else None
@@ -317,7 +319,9 @@ Definition geffect (s : gst) (t : Z) (p p' : pc) (e : event) : option gst :=
       if ev_kind e DV_FUTEX_WAIT
       then Some (set_slp s (upd (slp s) t (if f_dg_state_gen (word s) =? ea e then Sleeping else NoSleep)))
       else if ea e =? f_dg_state_gen (word s) then Some s else None
-  | PSleep _ _ => Some (set_slp s (upd (slp s) t Awake))
+  | PSleep tmo _ =>
+      (* futex_wait returns (woken, value changed, interrupted, spuriously); without a timeout it cannot report ETIMEDOUT *)
+      if (tmo =? FOREVER) && (eb e =? ETIMEDOUT) then None else Some (set_slp s (upd (slp s) t Awake))
   | PSlowLoad _ _ _ => if ea e =? f_dg_state_gen (word s) then Some s else None
   | PNfPush => if ea e =? tailptr (nq s) then Some (set_push s t (eb e)) else None
   | PNfHead _ => Some s
